@@ -32,6 +32,11 @@ func (cs ClientState) GetLatestHeight() exported.Height {
 }
 
 func (cs ClientState) Validate() error {
+	// the client's first consensus state is stored at this height, and the xibc genesis validation
+	// does not accept a consensus state at height 0-0
+	if cs.Header.Height.IsZero() {
+		return sdkerrors.Wrap(ErrInvalidGenesisBlock, "height cannot be zero")
+	}
 	return cs.Header.ValidateBasic()
 }
 
